@@ -165,6 +165,7 @@ class P(Prop):
         (M, "TV.C15.builtin_kernels", "the Uniform/Triangular/Epanechnikov kernel functions of kernel.py are even, non-negative, positive at 0"),
         (M, "TV.C15.filterSeq_is_mean", "filter_seq (and Track.smooth): every listed coordinate/feature becomes the mean signal of its former values, same window for all dimensions despite the in-place normalisation; other signals except 'temp' untouched"),
         (M, "TV.C15.filterSeq_int", "filter_seq with an int n uses [1]*n; n = 1 or a one-element list returns the track unchanged"),
+        (M, "TV.C15.dirac_identity", "the Dirac kernel ([0,1,0]) returns a NaN-free signal unchanged"),
         (M, "TV.C15.zero_norm_fails", "outside the domain (a zero norm) the method fails with a division by zero, never a wrong value"),
     ]
     partial = []
